@@ -32,6 +32,9 @@ def special_lists():
     # detector remembers between two parse() calls must not change what the second call returns)
     L['multiword_tails'] = (['love'] * 5 + ['cats'] * 5 + ['dogs'] * 5 + ['lovecatsdogs', 'catsdogs', 'CatsDogs7', 'lovecatsdogs', 'dogscatsdogs',
                             'lovelovecatsdogs', 'catsdogs1'], {})
+    # a '19' / '20' that is not a year, followed later by something that ends in two digits; years touching digits; two years
+    L['years'] = (['mike20jones99', 'route20_ab12', 'Anna19xx-Bo07!', 'pass20love12', '19x2019', '20pass2019', '2019', 'a1987b', '12019', '201920',
+                   '1920', '2019x1987', 'x20x19x2001x'], {})
     # coverage boundaries
     L['coverage1'] = (['password1', 'Password1', 'love12', 'abc!'], {'coverage': 1})
     return L
